@@ -159,6 +159,16 @@ def rand_bytes(rng, n):
     return bytes(rng.getrandbits(8) for _ in range(n))
 
 
+def rand_ip(rng, bits):
+    """address values incl. the special IPv6 forms a dual-stack socket reports (IPv4-mapped ::ffff:a.b.c.d,
+    IPv4-compatible ::a.b.c.d, loopback, unspecified, link-local, multicast)"""
+    if bits == 32:
+        return rng.choice([0, 1, 0x7f000001, 0xffffffff, 0xc0000207, rng.getrandbits(32)])
+    v4 = rng.choice([0x7f000001, 0xc0000207, 0xffffffff, rng.getrandbits(32)])
+    return rng.choice([0, 1, (1 << 128) - 1, (0xffff << 32) | v4, v4, 0xfe80 << 112 | rng.getrandbits(64),
+                       0xff02 << 112 | 1, 0x20010db8 << 96 | rng.getrandbits(96), rng.getrandbits(128)])
+
+
 def rand_len(rng):
     return rng.choice([0, 0, 1, 2, 5, 20, 62, 63, 64, 65, 200, 1200])
 
@@ -215,10 +225,10 @@ def rand_frame(rng, code=None, small=False):
         f = pb(rand_bytes(rng, ln()))
     elif code in (ADD_ADDRESS4, ADD_ADDRESS6):
         ipbits = 128 if code == ADD_ADDRESS6 else 32
-        f = [u32(), rng.choice([0, 1, 443, 65535]), rng.choice([0, 1, (1 << ipbits) - 1, rng.getrandbits(ipbits)]), u32(), rng.randint(0, 5)]
+        f = [u32(), rng.choice([0, 1, 443, 65535]), rand_ip(rng, ipbits), u32(), rng.randint(0, 5)]
     elif code in (PUNCH_ME_NOW4, PUNCH_ME_NOW6):
         ipbits = 128 if code == PUNCH_ME_NOW6 else 32
-        f = [u32(), u32(), rng.choice([0, 1, 443, 65535]), rng.choice([0, 1, (1 << ipbits) - 1, rng.getrandbits(ipbits)]), u32(), rng.randint(0, 5)]
+        f = [u32(), u32(), rng.choice([0, 1, 443, 65535]), rand_ip(rng, ipbits), u32(), rng.randint(0, 5)]
     elif code in (PUNCH_HELLO, PUNCH_DONE):
         f = [u32(), u32(), u32()]
     else:
